@@ -78,7 +78,7 @@ func init() {
 				f := f
 				Register(&Scenario{
 					Name:  name("ack/%s/c%df%d", qk, c, f),
-					Props: []string{"C11", "C01", "C13", "C17"},
+					Props: []string{"C11", "C01", "C03", "C13", "C17"},
 					Mode:  "NB", Quick: 2, Thorough: 3, Shards: 8,
 					Body: func(h *H) {
 						w := h.NewWorker(Plain, c)
@@ -97,6 +97,12 @@ func init() {
 							h.End()
 						} else {
 							h.NoRest = true
+							// a refused dequeue is an error, not a stop: when nothing but dequeues was refused every accepted
+							// item must still have been processed and acknowledged, with no further prompting
+							if q.Ad.FaultsBy["enq"] == 0 && q.Ad.FaultsBy["ack"] == 0 && (len(q.Ad.items) != 0 || len(q.Ad.unacked) != 0) {
+								h.viol("C11", "C11.fault-stall", "after a refused dequeue accepted items stay on the adapter although the worker is running and idle")
+								h.viol("C03", "C03.stuck", "an accepted job was never started although the worker is running and idle")
+							}
 							// an accepted item may only be missing from the run set if the adapter still holds it
 							for _, jr := range h.Jobs {
 								if !jr.Accepted || len(jr.Ends) > 0 {
@@ -142,6 +148,9 @@ func init() {
 					for _, jr := range h.Jobs {
 						jr.W = w
 					}
+					// the recovering worker may meet one refused dequeue: it must still drain everything
+					ad.Faults, ad.MaxFault = n <= 2, 1
+					ad.FaultOnly = "deq"
 					q := w.Bind(qk, ad)
 					for _, jr := range h.Jobs {
 						jr.Q = q
@@ -157,13 +166,54 @@ func init() {
 		}
 	}
 
+	// ---- a user-supplied in-process queue that also implements IAcknowledgeable (WithQueue / WithPriorityQueue) ----
+	for _, kp := range []kindPair{{Plain, Cust}, {ErrW, Cust}, {ResW, CustPrio}, {Plain, CustPrio}} {
+		kp := kp
+		for _, f := range []int{0, 1} {
+			f := f
+			Register(&Scenario{
+				Name:  name("custom/%s/f%d", kp, f),
+				Props: []string{"C05", "C01", "C03", "C07", "C16", "C17"},
+				Mode:  "NB", Quick: 2, Thorough: 3, Shards: 4,
+				Body: func(h *H) {
+					h.HangProp = "C05"
+					h.Beh[1] = BErr
+					w := h.NewWorker(kp.W, 2)
+					q := w.Bind(kp.Q, nil)
+					q.Ad.Faults, q.Ad.MaxFault = f > 0, 1
+					q.Ad.FaultOnly = "ack"
+					j0 := q.Add(0, AddOpt{Prio: 1})
+					j1 := q.Add(1, AddOpt{})
+					wait := func(j *JobRec) {
+						switch kp.W {
+						case ResW:
+							h.Result(j)
+						case ErrW:
+							h.Err(j)
+						default:
+							h.Wait(j)
+						}
+					}
+					go func() { wait(j0); h.Wait(j0) }()
+					go func() { h.Wait(j1); wait(j1) }()
+					h.NoRest = f > 0
+					h.End()
+				},
+			})
+		}
+	}
+
 	// ---- distributed consumers on one shared adapter (C13, C11, C01) ---------------------------------------------
 	for _, qk := range []QK{Dist, DistPrio} {
 		qk := qk
 		for _, k := range []int{1, 2, 3} {
 			k := k
+			only := ""
+			if k == 3 {
+				only = "thorough"
+			}
 			Register(&Scenario{
-				Name:  name("dist/%s/k%d", qk, k),
+				Name:  name("dist/%s/k%d", qk, k), Only: only,
 				Props: []string{"C13", "C11", "C01", "C17"},
 				Mode:  "NB", Quick: 2, Thorough: 3, Shards: 8,
 				Body: func(h *H) {
